@@ -903,6 +903,7 @@ def _tree_cases(rng, tier):
 def _f32_exact_tokens(s):
     """Every decimal token of s is a float32-exact value (so float() -> float32 does not round)."""
     import struct
+    s = "".join(s.split())          # the reader deletes all whitespace first: `0. 01` is the token `0.01`
     for tok in re.findall(r"[0-9.]+", s):
         if tok.count(".") > 1 or not any(c.isdigit() for c in tok):
             continue
